@@ -3,6 +3,7 @@ package parser
 import (
 	"bytes"
 
+	"github.com/cedar-policy/cedar-go/internal/extensions"
 	"github.com/cedar-policy/cedar-go/x/exp/ast"
 )
 
@@ -142,6 +143,17 @@ type NodeTypeExtensionCall struct {
 	ast.NodeTypeExtensionCall
 	accessPrecedenceNode
 }
+
+// A call in function style (decimal("1.0"), ip("1.2.3.4"), ...) is a primary expression in the
+// grammar, and it is how values of the extension types are written: it has the precedence of
+// a literal.  Only calls in method style are member accesses.
+func (n NodeTypeExtensionCall) precedenceLevel() nodePrecedenceLevel {
+	if !extensions.ExtMap[n.Name].IsMethod {
+		return primaryPrecedence
+	}
+	return accessPrecedence
+}
+
 type NodeTypeContains struct {
 	ast.NodeTypeContains
 	accessPrecedenceNode
